@@ -125,7 +125,7 @@ Theorem entry_points_agree :
          r method host path pattern tp0 tp1,
     Router_Reverse fuel strip_host_port r method host path tp0 =
       Router_Lookup fuel strip_host_port r method host (or_slash path) tp1 /\
-    Txn_Reverse fuel strip_host_port r method host path tp0 = Txn_Lookup fuel strip_host_port r method host path tp1 /\
+    Txn_Reverse fuel strip_host_port r method host path tp0 = Txn_Lookup fuel strip_host_port r method host (or_slash path) tp1 /\
     ServeHTTP_direct fuel strip_host_port r method host path tp0 =
       direct_only (Router_Lookup fuel strip_host_port r method host path tp1) /\
     Iter_Reverse1 fuel strip_host_port ts_opt r method host path tp0 =
@@ -152,15 +152,21 @@ Example C01_entry_points_agree_ex :
     nroute n' = nroute n.
 Proof. exact entry_points_agree_ex. Qed.
 
-(* ---- Router.Reverse vs Txn.Reverse: same for a non-empty path, different on "" (witness) ---- *)
+(* ---- Router.Reverse and Txn.Reverse are the same function of the roots value (both default "" to "/":
+        fix f49b881; the witness below is the regression case of that fix) ---- *)
+Theorem C01_Router_Txn_Reverse_eq : forall fuel shp r m h p tp0,
+  Router_Reverse fuel shp r m h p tp0 = Txn_Reverse fuel shp r m h p tp0.
+Proof. exact Router_Txn_Reverse_eq. Qed.
+Print Assumptions C01_Router_Txn_Reverse_eq.
+
 Theorem C01_Router_Txn_Reverse_nonempty : forall fuel shp r m h p tp0, p <> [] ->
   Router_Reverse fuel shp r m h p tp0 = Txn_Reverse fuel shp r m h p tp0.
 Proof. exact Router_Txn_Reverse_nonempty. Qed.
 Print Assumptions C01_Router_Txn_Reverse_nonempty.
 
-Theorem C01_Txn_Reverse_empty_path_refuted :
+Theorem C01_Txn_Reverse_empty_path_agrees :
   exists r m h n,
     Router_Reverse ex_fuel ex_strip r m h [] [] = EP (Some (n, false)) /\
-    Txn_Reverse ex_fuel ex_strip r m h [] [] = EP (Some (n, true)).
-Proof. exact Txn_Reverse_empty_path_differs. Qed.
-Print Assumptions C01_Txn_Reverse_empty_path_refuted.
+    Txn_Reverse ex_fuel ex_strip r m h [] [] = EP (Some (n, false)).
+Proof. exact Txn_Reverse_empty_path_agrees. Qed.
+Print Assumptions C01_Txn_Reverse_empty_path_agrees.
